@@ -6,7 +6,7 @@ props = [json.loads(l) for l in open(os.path.join(HERE, 'properties.jsonl'))]
 
 TECH = 'symbolic execution of the real code over object arrays + z3 QF_NRA (unsat for all values within bounds; sat replayed on float code)'
 
-BUILT = ['C01', 'C02', 'C03', 'C04', 'C05', 'C06', 'C11', 'C12', 'C15', 'C16', 'C17']
+BUILT = ['C01', 'C02', 'C03', 'C04', 'C05', 'C06', 'C07', 'C08', 'C11', 'C12', 'C15', 'C16', 'C17']
 FLOATS = 'floats read as reals (rounding/NaN/overflow outside the claim); definedness assumed (non-zero divisors, arguments in the open domain); '
 TEXTS = {
  'C01': ('for each overloaded function and each (D,P,shape) in the bound the real recurrences run on fully symbolic (real and complex) coefficients and every output '
@@ -24,6 +24,10 @@ TEXTS = {
          FLOATS + 'programs enumerated; structural clause is a per-run assertion, not a solver query', '4 C05'),
  'C06': ('for each program and history (all sequences of length <=2 over forward/reverse/driver/second-graph calls + sampled longer ones) every call on the long-lived graph is proved equal to the same call on a fresh graph; forward values of all nodes are proved unchanged by a reverse sweep; earlier results must still be intact at the end',
          FLOATS + 'histories enumerated up to length 2 (3 thorough) + seeded samples up to 5', '4 C06'),
+ 'C07': ('dot/outer (every operand rank and kind combination in the bound)/trace proved equal to NumPy on coefficient slices convolved; inv and solve proved through A inv(A)=I, inv(A) A=I, A X=B modulo t^D; det proved equal to the Leibniz polynomial of A(t) on every pivot path of a symbolic partial-pivoting LU; logdet orders>=1 against log(det(t)); expm against the Pade-7 defining equation',
+         FLOATS + 'sizes N<=3, D<=4 (inv 2x2 D<=6), P<=2; numpy.linalg.inv/solve replaced by exact cofactor formulas; lu_factor by a pivoting model validated against LAPACK on the float build; logdet order 0 numeric only; det(A0)>0 for logdet', '4 C07'),
+ 'C08': ('zeroth coefficients are constructed from their factors (rational parametrisation of O(2)/SO(3), free triangular/diagonal entries), higher coefficients free symbols; the real recurrences run and QR=A, Q^TQ=I, R upper (reduced square/tall/wide, full), LL^T=A, PLU=A with unit-lower L / upper U / constant permutation (lu, lu2, lu_factor; all pivot paths), A=Q diag(lambda) Q^T with Q^TQ=I and ascending lambda_0 (distinct eigenvalues), AQ=Q diag(lambda) (eig, D<=2) are proved modulo t^D',
+         FLOATS + 'LAPACK on A0 is a contract stub returning the factors A0 was built from (LU: explicit pivoting model); shapes 2x2, 3x2, 2x3, 3x3; D<=3 quick / <=4-5 thorough; repeated eigenvalues and svd are NOT covered (stated in DESIGN.md)', '4 C08'),
  'C11': ('each catalogued operation is run on P directions with independent symbols (incl. independent base points) and on each direction alone; equality of all coefficients is decided for all values; '
          'term support shows no symbol of another direction occurs', FLOATS + 'operation catalogue in symx/ops.py, D<=3/4, P<=2/3', '4 C11'),
  'C12': ("each catalogued operation at degree D and at every D'<D on the truncated symbolic input: first D' coefficients proved equal; coefficient d shown to mention no input symbol of order > d",
